@@ -194,8 +194,12 @@ def proxy(base=None, local='X-Forwarded-Host', remote='X-Forwarded-For',
         if lbase is not None:
             base = lbase.split(',')[0]
     if not base:
-        default = urllib.parse.urlparse(request.base).netloc
-        base = request.headers.get('Host', default)
+        # request.base is only taken apart when there is no Host header
+        # (it is then built from the server's own name): a Host such as
+        # "[::1" makes urlparse raise ValueError.
+        base = request.headers.get('Host')
+        if base is None:
+            base = urllib.parse.urlparse(request.base).netloc
 
     if base.find('://') == -1:
         # add http:// or https:// if needed
